@@ -57,9 +57,9 @@ S.ghost("spawning_popen", T.IntS, "the Popen object being spawned (multiprocessi
 
 c = S.ext("mp.ResourceTracker.getfd", cite="multiprocessing.resource_tracker.ResourceTracker.getfd(): ensure_running() then the write descriptor")
 c.param("self", T.Ref("ResourceTracker")).returns(T.Int)
-c.ensures("open", "G.fd_open[result] and G.fd_owned[result]")
-c.modifies("self._fd", "self._pid", "G.fd_open", "G.fd_owned")
-c.ensures("only-adds-the-tracker-descriptor", "forall(Int, lambda fd: implies(fd != result, G.fd_open[fd] == old(G.fd_open[fd]) and G.fd_owned[fd] == old(G.fd_owned[fd])))")
+c.ensures("open", "G.fd_open[result] and self._fd == result")
+c.modifies("self._fd", "self._pid", "G.fd_open")
+c.ensures("only-adds-the-tracker-descriptor", "forall(Int, lambda fd: implies(fd != result and G.tracker_stable, G.fd_open[fd] == old(G.fd_open[fd])))")
 
 
 @_impl("multiprocessing.context.set_spawning_popen", cite="set_spawning_popen(popen): thread-local marker used while pickling the process object")
@@ -111,6 +111,8 @@ S.ext_consts["os.WNOHANG"] = VInt(1)
 def _waitpid(eng, st, self_v, args, kwargs, node):
     from pyvc.values import fresh_const, VTuple
     out = []
+    if isinstance(args[0], type(NONE)):
+        return [eng.raise_new(st, "TypeError")]
     s = st.clone()
     s.emit("waitpid_error", list(args), eng.site(node))
     out.append(eng.raise_new(s, "ChildProcessError"))
@@ -143,31 +145,51 @@ i.inv("still-unknown", "is_none(self.returncode)")
 
 # ---------------------------------------------------------------- spawn.get_preparation_data / prepare (summaries used by _launch; bodies below)
 SP = Module("loky.backend.spawn")
+c = SP.contract("get_executable")
+c.returns(T.Str).modifies()
+c.trusted_summary = True
 c = SP.contract("get_preparation_data", props=["C12", "C18"])
 c.param("name", T.Obj).param("init_main_module", T.Bool, default=VBool(True))
 c.returns(T.Obj)
-c.raises("prep/only-while-not-bootstrapping", "Exception",
-         post="forall(Int, lambda fd: implies(old(G.fd_open[fd]), G.fd_open[fd])) and forall(Int, lambda fd: implies(G.fd_open[fd] and not old(G.fd_open[fd]), G.fd_owned[fd])) and forall(Int, lambda fd: implies(old(G.fd_owned[fd]), G.fd_owned[fd]))")
-c.modifies("G.fd_open", "G.fd_owned", "G.tracker_started")
+NEWTR = "forall(Int, lambda fd: implies(G.fd_open[fd] and not old(G.fd_open[fd]), loky_tracker()._fd == fd or unbox(mp_tracker()._fd) == fd))"
+KEEPOPEN = "implies(G.tracker_stable, forall(Int, lambda fd: implies(old(G.fd_open[fd]), G.fd_open[fd])))"
+c.raises("prep/only-while-not-bootstrapping", "Exception", post=KEEPOPEN + " and " + NEWTR + " and implies(G.tracker_stable and not is_none(old(loky_tracker()._fd)), loky_tracker()._fd == old(loky_tracker()._fd))")
+c.modifies("G.fd_open", "G.tracker_started", "loky_tracker()._fd", "loky_tracker()._pid", "mp_tracker()._fd", "mp_tracker()._pid")
 S.ghost("tracker_started", T.BoolS, "ensure_running() of the loky tracker was called")
-c.ensures("prep/opens-nothing-that-is-closed-later", "forall(Int, lambda fd: implies(old(G.fd_open[fd]), G.fd_open[fd]))")
-c.ensures("prep/ships-open-tracker-descriptors", "G.fd_open[unbox(result['mp_tracker_args']['fd'])] and G.fd_owned[unbox(result['mp_tracker_args']['fd'])]")
-c.ensures("prep/new-descriptors-belong-to-the-trackers", "forall(Int, lambda fd: implies(G.fd_open[fd] and not old(G.fd_open[fd]), G.fd_owned[fd])) and forall(Int, lambda fd: implies(old(G.fd_owned[fd]), G.fd_owned[fd]))")
+S.ghost("tracker_stable", T.BoolS, "configuration: the tracker processes stay alive during the call (A-tracker-stable)")
+S.assumption("A-tracker-stable", "the resource tracker does not die between two consecutive liveness probes of one launch")
+c.ensures("prep/keeps-open-descriptors-open-while-the-tracker-lives", KEEPOPEN)
+c.ensures("prep/ships-an-open-mp-tracker-descriptor", "G.fd_open[unbox(result['mp_tracker_args']['fd'])] and result['mp_tracker_args']['fd'] is mp_tracker()._fd")
+c.ensures("prep/new-descriptors-are-the-trackers", NEWTR)
+STABLE_FD = "implies(G.tracker_stable and not is_none(old(loky_tracker()._fd)), loky_tracker()._fd == old(loky_tracker()._fd))"
+c.ensures("prep/a-living-tracker-keeps-its-descriptor", STABLE_FD)
 c.trusted_summary = True
 
 # reduction.dump may call back Popen.duplicate_for_child while pickling connections: the keep list only grows, by open descriptors
 d = S.contracts["loky.backend.reduction:dump"]
 d.modifies_ = ["contents(as_(G.spawning_popen, 'Popen')._fds)", "G.fd_inheritable"]
+S.contracts["loky.backend.reduction:dumps"].modifies_ = ["contents(as_(G.spawning_popen, 'Popen')._fds)", "G.fd_inheritable"]
 d.ensures("dump/keep-list-only-grows-by-open-descriptors",
           "prefix_of(old(seq(as_(G.spawning_popen, 'Popen')._fds)), seq(as_(G.spawning_popen, 'Popen')._fds)) and "
           "forall(Int, lambda x: implies(mem(as_(G.spawning_popen, 'Popen')._fds, x), old(mem(as_(G.spawning_popen, 'Popen')._fds, x)) or G.fd_open[x]))")
+NOSPAWN = ("implies(G.spawning_popen == 0, seq(as_(G.spawning_popen, 'Popen')._fds) == old(seq(as_(G.spawning_popen, 'Popen')._fds)) and "
+           "G.fd_inheritable == old(G.fd_inheritable))")
+d.ensures("dump/no-callback-effect-outside-a-spawn", NOSPAWN)
+dd = S.contracts["loky.backend.reduction:dumps"]
+dd.ensures("dumps/no-callback-effect-outside-a-spawn", NOSPAWN)
+dd.exsures_[:] = [("dumps/pickling-errors-propagate", "BaseException", None, NOSPAWN, None)]
+for k_ in ("loky.backend.queues:SimpleQueue.put", "loky.backend.queues:Queue._feed"):
+    S.contracts[k_].rely("no-process-is-being-pickled", "G.spawning_popen == 0", "A-spawn")
+S.assumption("A-spawn", "queues do not send objects while a process object is being pickled for launch (the spawning-popen marker is only set around that pickling)")
 d.exsures_[:] = [("dump/pickling-errors-propagate", "BaseException", None,
-                  "forall(Int, lambda x: implies(mem(as_(G.spawning_popen, 'Popen')._fds, x), old(mem(as_(G.spawning_popen, 'Popen')._fds, x)) or G.fd_open[x]))", None)]
+                  "forall(Int, lambda x: implies(mem(as_(G.spawning_popen, 'Popen')._fds, x), old(mem(as_(G.spawning_popen, 'Popen')._fds, x)) or G.fd_open[x])) and " + NOSPAWN, None)]
 
-NEW_FDS_OWNED = "forall(Int, lambda fd: implies(G.fd_open[fd] and not old(G.fd_open[fd]), G.fd_owned[fd]))"
+OWNED = "(G.fd_owned[fd] or loky_tracker()._fd == fd or unbox(mp_tracker()._fd) == fd)"
+NEW_FDS_OWNED = "forall(Int, lambda fd: implies(G.fd_open[fd] and not old(G.fd_open[fd]), " + OWNED + "))"
 c = PP.contract("Popen._launch", props=["C18", "C20", "C12"])
 c.param("self", T.Ref("Popen")).param("process_obj", T.Ref("LokyProcess"))
 c.rely("keep-list-holds-open-descriptors", "forall(Int, lambda x: implies(mem(self._fds, x), G.fd_open[x]))", "A-fds")
+c.rely("the-trackers-do-not-die-during-the-launch", "G.tracker_stable", "A-tracker-stable")
 FEX = "loky.backend.fork_exec:fork_exec"
 c.at_call(FEX, "keep-list-is-the-deliberate-handles", "arg_keep_fds is obj(self._fds) and mem(self._fds, child_r) and mem(self._fds, child_w) and "
           "mem(self._fds, tracker_fd) and mem(self._fds, mp_tracker_fd)", prop="C18")
@@ -188,8 +210,120 @@ c.ensures("launch/parent-write-end-closed", "not G.fd_open[log_arg('pipe', 1, 1)
 c.raises("launch/a-failed-launch-leaks-no-descriptor", "BaseException", post=NEW_FDS_OWNED, prop="C20")
 c.raises("launch/a-failed-launch-reports-its-own-error", "BaseException", post="log_count('unbound_local') == 0", prop="C20")
 c.modifies("self.pid", "self.sentinel", "contents(self._fds)", "G.fd_open", "G.fd_owned", "G.fd_inheritable", "G.spawning_popen", "G.tracker_started",
-           "resource_tracker._resource_tracker._fd", "resource_tracker._resource_tracker._pid")
+           "resource_tracker._resource_tracker._fd", "resource_tracker._resource_tracker._pid", "G.sig_blocked", "G.tracker_spawns", "G.pid_live", "G.joined",
+           "mp_tracker()._fd", "mp_tracker()._pid")
 c.assumes("A-finalize")
 S.assumption("A-fds", "descriptors recorded in a Popen's keep list are open descriptors of this process")
 c.replay("launch_fd_balance", fork_exec_fails="log_count('raise:fork_exec') == 1", first_pipe_fails="log_count('pipe_failed') == 1 and log_count('pipe') == 0",
          second_pipe_fails="log_count('pipe_failed') == 1 and log_count('pipe') == 1")
+
+
+# ======================================================================
+# process.py
+PR = Module("loky.backend.process")
+c = S.ext("BaseProcess.__init__", cite="multiprocessing.process.BaseProcess.__init__(group, target, name, args, kwargs, daemon)")
+c.param("self", T.Ref("BaseProcess")).kwargs("kw").modifies()
+S.classes["LokyProcess"].fields.update({"_target": T.Obj, "_args": T.Obj})
+S.cls("LokyInitMainProcess", {}, bases=["LokyProcess"], module="loky.backend.process")
+
+c = PR.contract("LokyProcess.__init__", props=["C18"])
+c.param("self", T.Ref("LokyProcess")).param("group", T.Obj, default=NONE).param("target", T.Obj, default=NONE).param("name", T.Obj, default=NONE)
+c.param("args", T.Obj, default=NONE).param("kwargs", T.Obj, default=NONE).param("daemon", T.Obj, default=NONE)
+c.param("init_main_module", T.Bool, default=VBool(False)).param("env", T.Map(T.Str, T.Str, nullable=True), default=NONE)
+c.ensures("process/main-module-not-reloaded-unless-asked", "self.init_main_module == init_main_module", prop="C18")
+c.ensures("process/env-overlay-kept", "implies(env is not None, self.env is env) and implies(env is None, len(self.env) == 0 and fresh(self.env))", prop="C18")
+c.raises_only("process/no-exception")
+c.modifies("self.env", "self.authkey", "self.init_main_module")
+
+c = PR.contract("LokyInitMainProcess.__init__", props=["C18"])
+c.param("self", T.Ref("LokyInitMainProcess")).param("group", T.Obj, default=NONE).param("target", T.Obj, default=NONE).param("name", T.Obj, default=NONE)
+c.param("args", T.Obj, default=NONE).param("kwargs", T.Obj, default=NONE).param("daemon", T.Obj, default=NONE)
+c.ensures("process/init-main-variant-reloads-main", "self.init_main_module == True", prop="C18")
+c.raises_only("process/no-exception")
+c.modifies("self.env", "self.authkey", "self.init_main_module")
+
+# ---------------------------------------------------------------- Popen.__init__ / wait
+c = PP.contract("Popen.__init__", props=["C18"])
+c.param("self", T.Ref("Popen")).param("process_obj", T.Ref("LokyProcess"))
+c.ensures("popen/launches-once-with-an-empty-keep-list-to-start-with", "log_count('call:Popen._launch') == 1 and log_arg('call:Popen._launch', 0, 2) is process_obj")
+c.raises("popen/launch-errors-propagate", "BaseException")
+c.modifies("self.returncode", "self._fds", "self.pid", "self.sentinel", "G.fd_open", "G.fd_owned", "G.fd_inheritable", "G.spawning_popen", "G.tracker_started",
+           "resource_tracker._resource_tracker._fd", "resource_tracker._resource_tracker._pid", "G.sig_blocked", "G.tracker_spawns", "G.pid_live", "G.joined",
+           "mp_tracker()._fd", "mp_tracker()._pid")
+for nm in ("sys.stdout.flush", "sys.stderr.flush"):
+    S.ext(nm, cite="file.flush()").modifies().is_quiet()
+
+c = PP.contract("Popen.wait", props=["C18"])
+c.param("self", T.Ref("Popen")).param("timeout", T.Opt(T.Real), default=NONE)
+c.returns(T.Opt(T.Int))
+c.ensures("wait/known-status-returned-at-once", "implies(not is_none(old(self.returncode)), result == old(self.returncode) and log_count('wait') == 0)")
+c.ensures("wait/none-when-the-sentinel-did-not-become-ready-in-time",
+          "implies(is_none(old(self.returncode)) and log_count('wait') == 1 and len(log_arg('wait', 0, 1)) == 0, "
+          "is_none(result) and log_count('call:Popen.poll') == 0)")
+c.ensures("wait/otherwise-the-exit-status-from-poll",
+          "implies(is_none(old(self.returncode)) and (log_count('wait') == 0 or len(log_arg('wait', 0, 1)) > 0), "
+          "log_count('call:Popen.poll') == 1 and result == log_arg('call:Popen.poll', 0, 0))")
+c.ensures("wait/only-a-timed-wait-polls-the-sentinel", "(log_count('wait') == 1) == (is_none(old(self.returncode)) and not is_none(timeout))")
+c.ensures("wait/waits-on-its-own-sentinel", "all_events('wait', lambda a, r: mem(a, self.sentinel) and len(a) == 1)")
+c.raises("wait/poll-assertion", "AssertionError")
+c.modifies("self.returncode")
+
+
+# ======================================================================
+# spawn.py: what the child is told (C12: the tracker; C18: the main module)
+S.classes["BaseProcess"].fields.update({"name": T.Obj, "authkey": T.Obj})
+c = S.ext("multiprocessing.process.current_process", cite="multiprocessing.process.current_process(): the object of this process")
+c.returns(T.Ref("BaseProcess")).modifies().is_pure()
+S.ext_consts["multiprocessing.util._logger"] = NONE
+c = S.ext("os.getcwd", cite="os.getcwd()")
+c.returns(T.Str).modifies()
+for nm in ("isabs",):
+    cc = S.ext(f"os.path.{nm}", cite=f"os.path.{nm}(p): pure")
+    cc.param("p", T.Obj).returns(T.Bool).modifies().is_pure()
+for nm in ("normpath", "basename"):
+    cc = S.ext(f"os.path.{nm}", cite=f"os.path.{nm}(p): pure")
+    cc.param("p", T.Obj).returns(T.Obj).modifies().is_pure()
+cc = S.ext("os.path.join", cite="os.path.join(a, b): pure")
+cc.param("a", T.Obj).param("b", T.Obj).returns(T.Obj).modifies().is_pure()
+cc = S.ext("os.chdir", cite="os.chdir(path)")
+cc.param("p", T.Obj).event("chdir", "p").modifies()
+cc = S.ext("multiprocessing.util.log_to_stderr", cite="util.log_to_stderr(level=None)")
+S.cls("mp.TrackerClient", {"_fd": T.Obj, "_pid": T.Obj}, external=True)
+S.glob("<ext>", "multiprocessing.resource_tracker._resource_tracker", T.Ref("mp.TrackerClient"), doc="multiprocessing's own tracker client")
+cc = S.ext("mp.TrackerClient.ensure_running", cite="multiprocessing.resource_tracker.ResourceTracker.ensure_running(): starts multiprocessing's tracker if needed")
+cc.param("self", T.Ref("mp.TrackerClient")).event("mp_ensure_running", "self").modifies("self._fd", "self._pid")
+
+for nm in ("_fixup_main_from_name", "_fixup_main_from_path"):
+    cc = SP.contract(nm, props=["C18"])
+    cc.param("x", T.Obj)
+    cc.raises("fixup/errors-propagate", "BaseException")
+    cc.modifies()
+    cc.trusted_summary = True
+SP.glob("old_main_modules", T.Obj)
+SP.glob("WINEXE", T.Bool, const=VBool(False))
+SP.glob("WINSERVICE", T.Bool, const=VBool(False))
+cc = SP.contract("_check_not_importing_main")
+cc.raises("prep/not-while-bootstrapping", "RuntimeError")
+cc.modifies()
+cc.trusted_summary = True
+
+S.spec_funcs["loky_tracker"] = lambda eng, st: eng.glob_value(st, "loky.backend.resource_tracker", "_resource_tracker")[0][1]
+S.spec_funcs["mp_tracker"] = lambda eng, st: eng.glob_value(st, "<ext>", "multiprocessing.resource_tracker._resource_tracker")[0][1]
+mpc = S.contracts["mp.TrackerClient.ensure_running"]
+mpc.modifies_ = ["self._fd", "self._pid", "G.fd_open"]
+mpc.ensures("open", "G.fd_open[unbox(self._fd)]")
+mpc.ensures("only-adds", "forall(Int, lambda fd: implies(fd != unbox(self._fd), G.fd_open[fd] == old(G.fd_open[fd])))")
+
+S.contracts["loky.backend.spawn:get_preparation_data"].trusted_summary = False
+c = S.contracts["loky.backend.spawn:get_preparation_data"]
+c.exsures_[:] = []
+ER = "call:ResourceTracker.ensure_running"
+c.ensures("inherit/tracker-started-before-its-coordinates-are-read", f"log_count('{ER}') == 1", prop="C12")
+c.ensures("inherit/ships-the-trackers-pid-and-descriptor-as-they-are-after-that",
+          "result['tracker_args']['pid'] == loky_tracker()._pid and result['tracker_args']['fd'] == loky_tracker()._fd", prop="C12")
+c.ensures("inherit/ships-multiprocessings-tracker-too", "log_count('mp_ensure_running') == 1 and 'mp_tracker_args' in result", prop="C12")
+c.ensures("main/not-shipped-unless-asked", "implies(not init_main_module, 'init_main_from_name' not in result and 'init_main_from_path' not in result)", prop="C18")
+c.ensures("main/name-or-path-when-asked", "implies(init_main_module and 'init_main_from_name' in result, 'init_main_from_path' not in result)", prop="C18")
+c.raises("prep/only-start-up-errors", "BaseException", post=KEEPOPEN + " and " + NEWTR + " and " + STABLE_FD)
+c.modifies_ = ["G.fd_open", "G.sig_blocked", "G.tracker_spawns", "G.pid_live", "G.joined", "G.tracker_started",
+               "loky_tracker()._fd", "loky_tracker()._pid", "mp_tracker()._fd", "mp_tracker()._pid"]
